@@ -9,7 +9,7 @@
 //! (constructor + argument terms + first result); in between, unrelated history is created
 //! (other constructions, derivatives, `try_compile`, `is_empty_re`, `get_string`, `str_in_re`).
 //! At random times and at the end every recorded construction is re-issued and compared with its
-//! first result (`std::ptr::eq`, `==`, id).  The complete term table is dumped in the middle and
+//! first result (`std::ptr::eq`, `==`, id, and no new term allocated).  The complete term table is dumped in the middle and
 //! at the end of the session and checked by the Lean `checkTable`.
 
 use crate::rng::Rng;
@@ -319,14 +319,10 @@ impl<'a> Session<'a> {
         let r = guarded(|| {
             let again = apply(re, pool, &c);
             let same = std::ptr::eq(first, again) && first == again && first.verif_id() == again.verif_id();
-            // re-issuing an existing construction allocates nothing: checked through the table
-            // (the final dump has the mid-session dumps as prefixes) rather than here, because
-            // smart constructors may legitimately create intermediate terms on first use only
-            p_bool(same)
+            // re-issuing an existing construction allocates nothing (every `make` it performs
+            // was performed the first time, so every key is found)
+            p_bool(same && re.verif_num_terms() == before)
         });
-        if self.re.verif_num_terms() != before {
-            self.t.count("reissue_allocated");
-        }
         if r == "PANIC" {
             self.dead = true;
         }
@@ -422,8 +418,16 @@ impl<'a> Session<'a> {
     }
 }
 
-/// one session: `steps` constructions with interleaved history and re-issues
+/// a session in which even `ReManager::new` may panic
 fn session(t: &mut Trace, rng: &mut Rng, label: u64, steps: usize, maxd: u32, bound: usize) {
+    let r = catch_unwind(AssertUnwindSafe(|| session_inner(t, rng, label, steps, maxd, bound)));
+    if r.is_err() {
+        emit(t, "store table PANIC", "PANIC", true);
+    }
+}
+
+/// one session: `steps` constructions with interleaved history and re-issues
+fn session_inner(t: &mut Trace, rng: &mut Rng, label: u64, steps: usize, maxd: u32, bound: usize) {
     let mut s = Session::new(t, label);
     for step in 0..steps {
         let c = rnd_cons(rng, &s.depth, maxd);
@@ -486,9 +490,11 @@ fn doc_example(t: &mut Trace) {
 }
 
 pub fn run(t: &mut Trace, rng: &mut Rng, thorough: bool) {
-    t.rule = "one case = one operation line: `same_ptr k` = recorded construction k (random public constructor of ReManager on random earlier terms, depth-bounded) re-issued after further random history (constructions, derivatives, try_compile/compile, is_empty_re, get_string, str_in_re) on the same manager, compared by std::ptr::eq, == and id; `compl_invol`/`complement` on random terms; `table` = the manager's complete term table (dumped mid-session and at the end, every term by id with child ids), `ids` = verif_term(i).id == i, `prefix` = a mid-session dump is a prefix of the final dump. All cases counted non-trivial; labels carry the session number so that cases of different sessions are distinct".into();
-    doc_example(t);
-    let (small, medium, large) = if thorough { (400, 120, 24) } else { (60, 16, 3) };
+    t.rule = "one case = one operation line: `same_ptr k` = recorded construction k (random public constructor of ReManager on random earlier terms, depth-bounded) re-issued after further random history (constructions, derivatives, try_compile/compile, is_empty_re, get_string, str_in_re) on the same manager, compared by std::ptr::eq, == and id, and required to allocate no new term; `compl_invol`/`complement` on random terms; `table` = the manager's complete term table (dumped mid-session and at the end, every term by id with child ids), `ids` = verif_term(i).id == i, `prefix` = a mid-session dump is a prefix of the final dump. All cases counted non-trivial; labels carry the session number so that cases of different sessions are distinct".into();
+    if catch_unwind(AssertUnwindSafe(|| doc_example(t))).is_err() {
+        emit(t, "store table PANIC", "PANIC", true);
+    }
+    let (small, medium, large) = if thorough { (600, 200, 40) } else { (80, 20, 4) };
     let mut label = 1;
     for _ in 0..small {
         let steps = 10 + rng.below(60) as usize;
@@ -496,13 +502,13 @@ pub fn run(t: &mut Trace, rng: &mut Rng, thorough: bool) {
         label += 1;
     }
     for _ in 0..medium {
-        let steps = 200 + rng.below(400) as usize;
-        session(t, rng, label, steps, 5, 150);
+        let steps = 400 + rng.below(1200) as usize;
+        session(t, rng, label, steps, 6, 200);
         label += 1;
     }
     for _ in 0..large {
-        let steps = 1500 + rng.below(1500) as usize;
-        session(t, rng, label, steps, 6, 300);
+        let steps = 5000 + rng.below(5000) as usize;
+        session(t, rng, label, steps, 8, 500);
         label += 1;
     }
 }
